@@ -121,7 +121,6 @@ pzgstrf_thread_init(SuperMatrix *A, SuperMatrix *L, SuperMatrix *U,
     Glu.nextl  = 0;
     Glu.nextu  = 0;
     Glu.nextlu = 0;
-    ifill(perm_r, n, EMPTY);
 
     /* Identify relaxed supernodes at the bottom of the etree. */
     pxgstrf_relax = (pxgstrf_relax_t *)
@@ -161,6 +160,10 @@ pzgstrf_thread_init(SuperMatrix *A, SuperMatrix *L, SuperMatrix *U,
 	}
 	return NULL;
     }
+
+    /* Only now: a workspace query (lwork = -1) has no side effects, and the
+       row permutation of existing factors must survive it. */
+    ifill(perm_r, n, EMPTY);
 
     /* Prepare arguments to all threads. */
     pzgstrf_threadarg = (pzgstrf_threadarg_t *) 
